@@ -19,6 +19,9 @@
 (*   k     kind: "send" "burn" "delegate" "undelegate" "redelegate"        *)
 (*         "withdraw" "set_withdraw" "fund_pool" "wasm_exec" "ibc_transfer"*)
 (*         "vote" (anything the decoder does not recognise is "odd:...")   *)
+(*         "self_update_admins" "self_freeze" "self_increase"              *)
+(*         "self_set_perm": wasm executes addressed to the proxy ITSELF;   *)
+(*         these are really dispatched by the chain (sender = the proxy)   *)
 (*   to    recipient / validator / contract (model name, "none" if absent) *)
 (*   coins sequence of [d, a] (denomination, amount in the run's scale)    *)
 (*   tag   second validator / payload / channel / vote ("" if absent)      *)
@@ -41,7 +44,11 @@ VARIABLES
   now,       \* [h, t]                    block height / time (offsets from the run's origin)
   out,       \* messages the proxy returned in the Response of the last call (decoded)
   slack,     \* [Addr -> [Denom -> Int]]  history: granted - relayed - reported remainder (difference form, DESIGN C-6)
-  ev         \* the call that produced this state: [act, by, args, ok, can]
+  ev         \* the call that produced this state: [act, by, args, ok, ret, can]
+             \*   ok  = the transaction was committed
+             \*   ret = the proxy's own entry point returned Ok (for Execute: it decided to relay); ok => ret,
+             \*         and ret /\ ~ok only when a relayed self-call failed and took the transaction with it
+             \*   can = answer of CanExecute{sender,msg} asked immediately before (single-message lists)
 
 sv_ == <<flavour, admins, mutable, al, perm, now, out, slack>>
 vars == <<flavour, admins, mutable, al, perm, now, out, slack, ev>>
@@ -69,6 +76,10 @@ HasSend(msgs) == Sends(msgs) # {}
 SumD(msgs, d) ==
   LET P == UNION {{<<i, j>> : j \in {jj \in 1..Len(msgs[i].coins) : msgs[i].coins[jj].d = d}} : i \in Sends(msgs)} IN
   SumOver(P, [p \in P |-> msgs[p[1]].coins[p[2]].a])
+
+\* re-entrant calls: the proxy is asked to call one of its own administrative entry points
+SelfKinds == {"self_update_admins", "self_freeze", "self_increase", "self_set_perm"}
+HasSelf(msgs) == \E i \in 1..Len(msgs) : msgs[i].k \in SelfKinds
 
 \* staking / distribution messages matching the permission flags (cw1-subkeys)
 PermCovers(p, m) ==
@@ -104,8 +115,8 @@ IsOk(a) == E.act = a /\ E.ok
 Rem(a, k, d) == a[k].c[d]
 
 \* ------------------------------------------------------------------ C07
-\* messages leave the proxy only in a successful Execute by an authorised caller ...
-C07_RelayOnlyAuthorised == Step /\ E.act \in RelayActs /\ Ok => Authorised(E.by, E.args.msgs)
+\* the proxy decides to relay only for an authorised caller ...
+C07_RelayOnlyAuthorised == Step /\ E.act \in RelayActs /\ (Ok \/ E.ret) => Authorised(E.by, E.args.msgs)
 \* ... exactly as submitted: same messages, same order, nothing added, altered or dropped
 C07_RelayExact == Step /\ E.act \in RelayActs /\ Ok => out' = E.args.msgs
 \* a failing call relays nothing and changes nothing
@@ -165,10 +176,11 @@ C08_OthersUntouched == Step /\ E.act \in RelayActs =>
 
 \* ------------------------------------------------------------------ C16
 \* CanExecute asked immediately before a single-message Execute on the same state predicts it ...
+\* (Execute "succeeds" = the proxy accepts and relays; what the relayed message then does is not the proxy's)
 C16_Predicts == Step /\ E.act = "execute" =>
-  IF Len(E.args.msgs) = 1 THEN E.can = E.ok ELSE TRUE
+  IF Len(E.args.msgs) = 1 THEN E.can = E.ret ELSE TRUE
 \* ... and so it does for (sender, message) pairs whose Execute is only tried and rolled back
-C16_ProbePredicts == Step /\ E.act = "canq" => E.can = E.ok
+C16_ProbePredicts == Step /\ E.act = "canq" => E.can = E.ret
 \* a positive answer is only given to authorised (sender, message) pairs
 C16_CanSound == Step /\ E.act \in RelayActs =>
   IF Len(E.args.msgs) = 1 /\ E.can THEN Authorised(E.by, E.args.msgs) ELSE TRUE
@@ -195,6 +207,9 @@ C17_GrantsByAdmins == Step =>
             /\ perm'[k] = [has |-> TRUE, d |-> E.args.d, u |-> E.args.u, r |-> E.args.r, w |-> E.args.w]
        /\ (al'[k] # al[k] /\ E.act \notin {"execute", "advance"}) =>
             Ok /\ E.act \in AllowanceActs /\ E.by \in admins /\ E.args.spender = k
+       \* an Execute (whatever it relays, also to the proxy itself) can only consume the caller's own allowance
+       /\ (al'[k] # al[k] /\ E.act = "execute") =>
+            Ok /\ E.by = k /\ \A d \in Denom : al'[k].c[d] <= al[k].c[d]
 \* an accepted instantiate installs exactly the requested admins and flag, and no grants
 C17_Init == E.act = "reset" /\ Ok =>
   /\ admins' = SeqSet(E.cfg.admins) /\ mutable' = E.cfg.mutable
@@ -244,8 +259,8 @@ RefCan(by, m) ==
 
 Frame_Admin == UNCHANGED <<flavour, admins, mutable>>
 
-\* the execute path
-DoExecute(by, msgs) ==
+\* the execute path: the proxy's own decision and effect ...
+DoRelay(by, msgs) ==
   /\ IF by \in admins THEN al' = al
      ELSE /\ flavour = "subkeys"
           /\ \A i \in 1..Len(msgs) : msgs[i].k = "send" \/ PermCovers(perm[by], msgs[i])
@@ -254,6 +269,10 @@ DoExecute(by, msgs) ==
              /\ al' = [al EXCEPT ![by].c = r.c]
   /\ out' = msgs
   /\ Frame_Admin /\ UNCHANGED perm
+
+\* ... and the transaction: a relayed self-call runs with the proxy as sender, which is not an admin
+\* in any configuration used, so it fails and takes the whole call with it
+DoExecute(by, msgs) == ~HasSelf(msgs) /\ DoRelay(by, msgs)
 
 DoFreeze(by) ==
   /\ by \in admins /\ mutable
